@@ -39,6 +39,7 @@ class World:
         self.n_invocations = 0
         self.latest = {}  # M_truth: target name -> id of the latest job accepted from a gwf invocation
         self.latest_gen = {}  # local pool only: generation of the pool that issued that id
+        self.accepted_gen = {}  # local pool only: (name, id) -> generation
         self.k3_lost = set()  # names whose accepted job id gwf could not have seen (kill inside submission)
         self.m_hash = {}  # M_hash
         self.hashing = bool(knobs.get("hashing"))
@@ -46,6 +47,11 @@ class World:
         self.config = {}  # M_conf (explicitly set keys)
         self.job_model = {}  # job id -> (outputs, log paths) captured at submission
         self.seam_count = 0
+        self.seam_log = []  # (kind, detail) of every seam event of the current / latest invocation
+        self.last_run_seams = 12  # seam events of the latest complete `gwf run` (to place faults in the next one)
+        self.last_gwf_faulted = False
+        self.cancel_requested_ids = set()  # cluster job ids some gwf invocation asked the scheduler to cancel
+        self.history_accepted = []  # every (name, id, deps) accepted so far, in order
         self.kill_at = None  # (k, 'before'|'after') for the current invocation
         self.intr_at = None  # k: KeyboardInterrupt at seam event k
         self.io_fault = None  # (k, errno) fail seam event k if it is a file mutation
@@ -171,6 +177,7 @@ class World:
         return os.path.join(self.proj, rel)
 
     def write_workflow(self):
+        self.model.invalidate()
         text = render(self.model, self.proj)
         with fsx._real_open(self.path("workflow.py"), "w") as f:
             f.write(text)
@@ -188,6 +195,7 @@ class World:
             raise SimKill()
         self.seam_count += 1
         k = self.seam_count
+        self.seam_log.append((kind, detail))
         self.trace.log("seam", k=k, kind=kind, detail=detail)
         if self.between_seams is not None:
             self.between_seams(kind, detail)
@@ -235,6 +243,7 @@ class World:
         if self.knobs.get("verbose_flag") and "-v" not in argv and self.backend != "multi":
             pre = pre + ["-v", self.knobs["verbose_flag"]]
         self.seam_count = 0
+        self.seam_log = []
         self.kill_at = tuple(kill_at) if kill_at else None
         self.intr_at = intr_at
         self.io_fault = tuple(io_fault) if io_fault else None
@@ -260,8 +269,12 @@ class World:
             self.local.pump()
         res.seams = self.seam_count
         res.faulted = bool(kill_at or intr_at or io_fault or cmd_faults)
+        self.last_gwf_faulted = res.faulted
         # jobs accepted from this invocation (ground truth, whatever gwf saw of them)
         res.accepted = list(self.accepted_now)
+        self.history_accepted.extend(res.accepted)
+        if argv and argv[0] == "run" and not res.faulted and res.seams:
+            self.last_run_seams = res.seams
         res.cancel_requests = []
         res.cmd_log = []
         if self.cluster:
@@ -269,6 +282,7 @@ class World:
             for seq, what, jid, name in self.cluster.journal[journal_before:]:
                 if what == "cancel":
                     res.cancel_requests.append(jid)
+                    self.cancel_requested_ids.add(jid)
             res.cmd_log = list(self.cluster.cmd_log)
             if self.backend == "slurm" and not self.knobs.get("accounting", True):
                 self.probe("invocations_with_accounting_disabled")
@@ -304,8 +318,10 @@ class World:
         self.job_model[j.id] = dict(outputs=outs, name=j.name, producers=producers,
                                     spec=t.spec() if t is not None else "", wd=t.wd if t is not None else "")
         self.latest[j.name] = j.id
+        self.k3_lost.discard(j.name)
         if self.local is not None:
             self.latest_gen[j.name] = self.local.generation
+            self.accepted_gen[(j.name, j.id)] = self.local.generation
         self.accepted_now.append((j.name, j.id, list(j.deps)))
 
     def jref(self, name):
@@ -627,6 +643,8 @@ class World:
             for fn in files:
                 p = os.path.join(root, fn)
                 rel = p[len(self.proj) + 1:]
+                if rel.startswith(".gwf/") and rel.endswith(".json.tmp"):
+                    continue  # left behind by an invocation killed inside an atomic state-file write: nobody's data
                 if os.path.islink(p):
                     snap[rel] = ("link", os.readlink(p).replace(self.base, "$BASE"))
                     continue
@@ -640,4 +658,19 @@ class World:
                         snap[rel] = ("raw", data)
                 else:
                     snap[rel] = (st.st_mtime_ns, data)
+        # the recorded job ids are the state file together with the journal of an invocation that was killed
+        # before it could save: fold the journal in, so that consolidating it is no semantic change
+        for rel in sorted(snap):
+            if rel.startswith(".gwf/") and rel.endswith(".json.journal"):
+                base = rel[:-len(".journal")]
+                data = snap.pop(rel)[1]
+                cur = snap.get(base)
+                merged = dict(cur[1]) if cur and cur[0] == "json" and isinstance(cur[1], dict) else {}
+                for line in data.decode("utf-8", "replace").splitlines():
+                    try:
+                        name, jid = json.loads(line)
+                    except ValueError:
+                        break
+                    merged[name] = jid
+                snap[base] = ("json", merged)
         return snap
